@@ -311,10 +311,6 @@ def tr_bool(n, blk):
     bad("boolean expression not in the grammar: " + ast.unparse(n), n)
 
 
-def mentions(n, places, spec):
-    return any(place(s) in places for s in ast.walk(n))
-
-
 def walk_region(stmts, spec: Spec, usb=None, seed=None) -> Block:
     """read a straight-line region.  usb: translated _update_search_bounds_ (for `(.., ..) = self._update_search_bounds_()`);
     seed: {var: param} variables that enter the region with a value (version 0 = that parameter)"""
@@ -407,7 +403,6 @@ def walk_region(stmts, spec: Spec, usb=None, seed=None) -> Block:
 def try_decision(st, blk):
     """`if <test>:` whose test only involves tracked places / inputs and whose body we do not follow"""
     spec = blk.spec
-    names = set(spec.tracked) | set(spec.inputs)
     leaves = [place(s) for s in ast.walk(st.test)]
     if not any(p in spec.tracked for p in leaves):
         return
@@ -760,8 +755,8 @@ class Model:
     pass
 
 
-OS = "arr"      # readability
-SC = "sc"
+OS = "arr"      # shape of a place: per-coordinate array ...
+SC = "sc"       # ... or scalar
 
 
 def load(repo=None) -> Model:
